@@ -140,7 +140,7 @@ Theorem model_output labels root T rs ls :
     /\ names_ok r ords nm (init_labels r labels) (fresh_idx T None)
     /\ ords_ok t ords T None.
 Proof.
-  intros FR RV H. unfold factorize_rule_model in H. rewrite FR in H.
+  intros FR RV H. unfold factorize_rule_model, factorize_rule_from in H. rewrite FR in H.
   rewrite (visit_eq r t ords _ _ _ T _ (rooted_fuel root T RV)) in H.
   destruct (visit_rt r t ords T None (init_labels r labels, [])) as [[[L' R'] [lhs ext]]|e] eqn:V; [|discriminate].
   cbn [bind fst snd] in H. injection H as <- <-.
@@ -150,16 +150,15 @@ Proof.
   split; [exact E1|]. split; [apply E4; reflexivity|]. split; [exact E5|]. split; [exact E6|exact E7].
 Qed.
 
-(** an original edge never carries a fresh label: its label is a terminal, or a nonterminal
-    whose name was in the label set from the start *)
+(** an original edge never carries a fresh label: the names of all edge labels of the rule are
+    in the label set from the start *)
 Lemma orig_label_not_fresh labels nm idx e j :
   names_ok r ords nm (init_labels r labels) idx -> In e (fr_edges r) -> In j idx ->
   elabel_eqb (fe_lab e) (nm j) = false.
 Proof.
   intros [n1 n2 n3 n4] He Hj. destruct (elabel_eqb (fe_lab e) (nm j)) eqn:E; [|reflexivity]. exfalso.
   apply elabel_eqb_eq in E. apply (n3 j Hj). rewrite <- E. apply in_map.
-  unfold init_labels. apply in_or_app. left. apply filter_In. split; [now apply in_map|].
-  unfold is_ntl. rewrite E. now rewrite (n1 j Hj).
+  unfold init_labels. apply in_or_app. left. now apply in_map.
 Qed.
 
 Definition wf_rule_p : Prop := NoDup (fr_ids r) /\ atts_in_ids r.
